@@ -417,8 +417,8 @@ def doLogin (c : Config) (st : State) : State × List Obs :=
   | .rejected => (st, [.loginSent, .loginResult .authError])
   | .garbled => (st, [.loginSent, .loginResult .error])
   | .eof =>
-      let (st', o) := closeServer .eof st
-      (st', [.loginSent] ++ o ++ [.loginResult .error])
+      let r := closeServer .eof st
+      (r.1, [.loginSent] ++ r.2 ++ [.loginResult .error])
 
 /-- Accepted login during which the (j+1)-th burst write hits a reset connection.  The session is initialised and
     destroyed again inside `login()`, which still returns normally.  KNOWN FINDING: listeners that run after the
@@ -432,9 +432,9 @@ def doLoginCut (c : Config) (j delivered : Nat) (residual : List String) (usersL
   if j ≥ b.length then doLogin c { st with srvReply := .accepted }
   else
     let st1 := { st with session := true, users := true }
-    let (st2, o) := closeServer .writeError st1
-    ({ st2 with tracked := residual, users := usersLeft },
-     [.loginSent, .sessionInit, .frames (b.take (min j delivered))] ++ o ++ [.loginResult .ok])
+    let r := closeServer .writeError st1
+    ({ r.1 with tracked := residual, users := usersLeft },
+     [.loginSent, .sessionInit, .frames (b.take (min j delivered))] ++ r.2 ++ [.loginResult .ok])
 
 /-- a residual observed on the real code for two friends (replayed on every run as the known-finding witness) -/
 def typicalResidual (c : Config) (j : Nat) : List String :=
@@ -451,13 +451,13 @@ def reconnect (c : Config) (st : State) : State × List Obs :=
   if st.srvUp then
     let st1 := { st with conn := .connected, ping := true, wd := .idle }
     if c.reconnectAuto then
-      let (st2, o) := doLogin c st1
-      (st2, [.attempt, .connected] ++ o)
+      let r := doLogin c st1
+      (r.1, [.attempt, .connected] ++ r.2)
     else (st1, [.attempt, .connected])
   else
     -- CONNECTING → disconnect(CONNECT_FAILED): the CLOSED listeners run again
-    let (st1, o) := closeServer .connectFailed { st with conn := .connecting, wd := .idle }
-    (st1, [.attempt] ++ o)
+    let r := closeServer .connectFailed { st with conn := .connecting, wd := .idle }
+    (r.1, [.attempt] ++ r.2)
 
 def tickWd (c : Config) (st : State) : State × List Obs :=
   match st.wd with
@@ -480,8 +480,8 @@ def doStart (c : Config) (st : State) : State × List Obs :=
                     logConn := c.logConnections },
          [.attempt, .connected])
       else
-        let (st2, o) := closeServer .connectFailed { st1 with conn := .connecting }
-        (st2, [.attempt] ++ o ++ [.startFailed])
+        let r := closeServer .connectFailed { st1 with conn := .connecting }
+        (r.1, [.attempt] ++ r.2 ++ [.startFailed])
 
 /-- client.py `stop()`: a task ends iff the code has a path for its site (`covered`). -/
 def doStop (st : State) : State × List Obs :=
@@ -489,7 +489,8 @@ def doStop (st : State) : State × List Obs :=
   let keepN (k : Site) (n : Nat) : Nat := if covered k then 0 else n
   let stA := { st with wd := if covered .watchdog then .off else st.wd
                        logConn := keepB .logConnections st.logConn }
-  let (st1, o) := closeServer .requested stA
+  let r := closeServer .requested stA
+  let st1 := r.1
   ({ st1 with stopped := true
               listening := 0
               scan := keepB .sharesScan st1.scan
@@ -503,10 +504,10 @@ def doStop (st : State) : State × List Obs :=
               searchTimers := keepN .searchTimer st1.searchTimers
               wishlistTimers := keepN .wishlistTimer st1.wishlistTimers
               pp := if covered .potentialParent then [] else st1.pp },
-   o)
+   r.2)
 
 def step (c : Config) (st : State) : Op → State × List Obs
-  | .start => if st.started then (st, [.invalid]) else doStart c st
+  | .start => if st.started ∨ st.conn ≠ .uninit then (st, [.invalid]) else doStart c st
   | .login =>
       if st.conn = .connected ∧ st.session = false ∧ st.reader = false ∧ st.stopped = false then doLogin c st
       else (st, [.invalid])
@@ -563,6 +564,10 @@ def openSockets (st : State) : Nat := (if st.conn = .connected then 1 else 0) + 
 /-- server-derived state is empty -/
 def cleared (st : State) : Prop :=
   st.tracked = [] ∧ st.users = false ∧ st.rooms = false ∧ st.params = false ∧ st.session = false
+
+instance (st : State) : Decidable (cleared st) := by unfold cleared; exact inferInstance
+
+instance (c : Config) : Decidable c.WF := by unfold Config.WF; exact inferInstance
 
 /-- operations of the environment (time, server availability) — everything that can happen without the user -/
 def Op.isEnv : Op → Bool
